@@ -474,3 +474,72 @@ def restore_globals():
         mod = mods.get(mname)
         if mod is not None and vars(mod).get(name, val) is not val:
             vars(mod)[name] = val
+
+
+# --------------------------------------------------------------------------
+# list with a symbolic-length tail (C09 framing harness)
+# --------------------------------------------------------------------------
+class SymList:
+    """Read-only sequence: concrete `head` items followed by `n` copies of
+    `fill`, n symbolic.  len() of it must go through the shadowed `len`."""
+
+    def __init__(self, head, n, fill=0, start=0):
+        self.head = list(head)
+        self.n = n
+        self.fill = fill
+        self.start = start      # offset of this view in the original sequence
+
+    def sym_len(self):
+        return len(self.head) + self.n
+
+    def __len__(self):
+        raise Unmodelled('builtin len() of a symbolic-length list (module lacks the len shadow)')
+
+    def __getitem__(self, i):
+        if isinstance(i, slice):
+            if i.step not in (None, 1):
+                raise Unmodelled('SymList slice with a step')
+            a = 0 if i.start is None else i.start
+            if isinstance(a, SymInt):
+                a = a.__index__()
+            if a < 0:
+                raise Unmodelled('SymList negative slice start')
+            if i.stop is None:
+                if a <= len(self.head):
+                    return SymList(self.head[a:], self.n, self.fill, self.start + a)
+                # a beyond the head: tail of length max(n - (a - len(head)), 0)
+                k = a - len(self.head)
+                if bool(self.n >= k):
+                    return SymList([], self.n - k, self.fill, self.start + a)
+                return SymList([], 0, self.fill, self.start + a)
+            b = i.stop
+            if isinstance(b, SymInt):
+                b = b.__index__()
+            if b < 0:
+                raise Unmodelled('SymList negative slice stop')
+            return [self[j] for j in builtins.range(a, b) if bool(j < self.sym_len())]
+        if isinstance(i, SymInt):
+            i = i.__index__()
+        if i < 0:
+            raise Unmodelled('SymList negative index')
+        if i < len(self.head):
+            return self.head[i]
+        if bool(i < self.sym_len()):
+            return self.fill
+        raise IndexError('list index out of range')
+
+    def __iter__(self):
+        yield from self.head
+        i = 0
+        while bool(i < self.n):
+            yield self.fill
+            i += 1
+
+    def concrete(self, n):
+        return self.head + [self.fill] * n
+
+
+def sym_len(x):
+    if isinstance(x, SymList):
+        return x.sym_len()
+    return builtins.len(x)
